@@ -52,7 +52,7 @@ def case_requests(rng, seq, s, objects=True, explicit=True):
         reqs.append(("obj_rotate_pt", [seq, sst, None]))
         if explicit:
             reqs.append(("obj_rotate", [seq, sst, rng.choice([-1, 0, 1, 2, n - 1, n, n + 1, 2 * n + 1])]))
-            reqs.append(("obj_rotate_pt", [seq, sst, rng.choice([0, 1, 2, n - 1, n, n + 1])]))
+            reqs.append(("obj_rotate_pt", [seq, sst, rng.choice([0, 1, 2, n - 1, n, n + 1, n + 2, 2 * n, 2 * n + 1, 3 * n + 1])]))
         reqs.append(("obj_rotate_pairtable_loc", [seq, sst, [rng.randrange(-2, n + 3), rng.randrange(0, 9)],
                                                   rng.randrange(-2 * n - 1, 2 * n + 2)]))
         reqs.append(("obj_rotate_pairtable_loc", [seq, sst, [rng.randrange(0, n), rng.randrange(0, 9)], 1]))
